@@ -559,6 +559,8 @@ pub fn c05(rng: &mut Rng, thorough: bool, idx: u64) -> Spec {
     // a third of the runs: two shards and no shard selected by anybody (default_shard decides);
     // the role still has to be honoured
     let nshards = if rng.chance(0.33) { 2 } else { 1 };
+    // (transaction mode only: in session mode a client keeps the server of its first statement for
+    // the whole connection, as documented and as C01 demands, so nothing is decided per transaction)
     let mut cfg = sharded_pool("transaction", nclients + 1, nshards, replicas);
     if nshards > 1 {
         cfg.pools[0].extra.push(format!("default_shard = \"{}\"", rng.pick(&["random", "shard_0", "shard_1"])));
